@@ -7,6 +7,7 @@ import (
 	"verif/mc/props/c05"
 	"verif/mc/props/c11"
 	"verif/mc/props/c12"
+	"verif/mc/props/c19"
 )
 
 func main() {
@@ -15,5 +16,6 @@ func main() {
 		"C05": c05.Prop,
 		"C11": c11.Prop,
 		"C12": c12.Prop,
+		"C19": c19.Prop,
 	})
 }
